@@ -20,7 +20,7 @@ from harness import storelib as sl
 PROPERTY = "C13"
 LEVEL = "model_checking"
 
-KEYS = ["a", "a/b", "a-1/b", "ab", "a/~X~b~E"]
+KEYS = ["a", "a/b", "a_b", "a-1/b", "ab", "a/~X~b~E"]       # shared prefixes, separators, a SQL wildcard, entities, a link
 
 
 class Obj:
@@ -48,8 +48,10 @@ ASSUMPTIONS = [
     "an unsuccessful store (store() returns a falsy value, e.g. condition of a conditional wrapper not met) may leave the key absent or "
     "unchanged but never with a different value",
     "back-ends: MemoryCache, CacheProxy, FileCache on ShimFS, StoreCache flat/nested on MemoryStore and on FileStore/ShimFS, "
-    "'+' combinations with MemoryCache/NoCache, the four conditional wrappers with a symbolic attribute value; SQL caches, XOR and "
-    "Fernet caches (sqlite3, numpy, cryptography) are outside the claim, including their 'no plain bytes on disk' clause",
+    "'+' combinations with MemoryCache/NoCache, the four conditional wrappers with a symbolic attribute value; SQLCache / SQLStringCache "
+    "(sqlite in memory), XORFileCache and FernetFileCache on ShimFS (incl. 'no plain bytes of values or metadata in any file'): their C "
+    "libraries (sqlite3, numpy, cryptography) run UNTRACED on the concrete data of each path - the solver decides which pre-state / "
+    "operation / key / value type, not the bytes",
     "kernel: StoreCache.to_path (nested) on free symbolic keys |k1|<=2 (thorough 4), |k2|<=|k1|+14; md5-based schemes (flat StoreCache, FileCache) are treated as "
     "injective (hashlib is outside reach)",
 ]
@@ -65,7 +67,8 @@ EXPLANATION = "cache map step lemma vs dictionary model; path-scheme prefix-free
 CONFIGS = ["memory", "proxy(memory)", "filecache", "storecache-flat(memorystore)", "storecache-nested(memorystore)",
            "storecache-nested(filestore)", "memory+memory", "nocache+memory", "memory+nocache",
            "memory.if_contains(x)+memory", "memory.if_not_contains(x)+memory", "memory.if_attribute_equal(x,v)+memory",
-           "memory.if_attribute_not_equal(x,v)+memory", "storecache-flat(filestore)"]
+           "memory.if_attribute_not_equal(x,v)+memory", "storecache-flat(filestore)",
+           "sqlcache(sqlite memory)", "sqlstringcache(sqlite memory)", "xorfilecache(shimfs)", "fernetfilecache(shimfs)"]
 OPS = ["store", "store_metadata_evaluation", "store_metadata_ready", "remove", "clean", "reads"]
 
 
@@ -98,8 +101,31 @@ def mkcache(ci):
         return MemoryCache().if_attribute_equal("x", "v") + MemoryCache()
     if ci == 12:
         return MemoryCache().if_attribute_not_equal("x", "v") + MemoryCache()
+    if ci == 13:
+        sl.new_fs()
+        return StoreCache(FileStore(sl.ROOT), "c", flat=True)
+    if ci == 14:
+        return lc.SQLCache.from_sqlite()
+    if ci == 15:
+        return lc.SQLStringCache.from_sqlite()
     sl.new_fs()
-    return StoreCache(FileStore(sl.ROOT), "c", flat=True)
+    if ci == 16:
+        return lc.XORFileCache(sl.ROOT + "/xc", b"secret-code")
+    return lc.FernetFileCache(sl.ROOT + "/fc", FERNET_KEY)
+
+
+FERNET_KEY = b"ZmVybmV0LWtleS1mb3ItdGhlLWMxMy1oYXJuZXNzISE="      # 32 url-safe base64-encoded bytes (fixed: runs are reproducible)
+
+
+def no_plaintext_on_disk(model):
+    """obfuscating / encrypting caches: neither a value's bytes nor metadata text may be readable in any file"""
+    from engine import shimfs
+    fs = shimfs.ShimPath.fs
+    needles = [b'"query"', b'"status"']
+    for k, m in model.items():
+        if m and m[0] == "ready" and isinstance(m[1], (str, bytes)):
+            needles.append(m[1].encode() if isinstance(m[1], str) else m[1])
+    return not any(n in b for b in fs.files.values() for n in needles)
 
 
 def mkstate(key, val, attr=None):
@@ -166,6 +192,10 @@ def ob_map(pre: int, ki: int, ti: int, attr: int) -> bool:
                     return True
                 c.store_metadata(dict(query=k, status="evaluation", attributes=({"x": accepted_attr} if accepted_attr is not None else {})))
                 model[k] = ("hidden-or", ("ready", v))
+        # reads before the operation (they change nothing, and they warm whatever listing a back-end memoises)
+        list(c.keys())
+        for k in K:
+            c.contains(k)
         stored = None
         if op == "store":
             v = value(ti, key, "new")
@@ -211,6 +241,8 @@ def ob_map(pre: int, ki: int, ti: int, attr: int) -> bool:
             elif m[0] == "maybe":
                 was = m[1]
                 ok = ok and (g is None or (was is not None and was[0] == "ready" and g != "raises" and _same(g.data, was[1])))
+        if ci in (16, 17):
+            ok = ok and no_plaintext_on_disk(model)
     return check(ok)
 
 
@@ -246,7 +278,7 @@ KNOWN = {"C13-nested-storecache-path-collision": _collision_witness}
 def obligations(tier):
     q = tier == "quick"
     obs = []
-    configs = [0, 2, 4, 6, 7, 9, 11] if q else list(range(len(CONFIGS)))
+    configs = [0, 2, 4, 6, 7, 9, 11, 14, 15, 16, 17] if q else list(range(len(CONFIGS)))
     n = 3 if q else 4
     for ci in configs:
         for op in range(len(OPS)):
